@@ -220,6 +220,9 @@ package tokenizer
 //@   ensures @C20 peak() <= len(recv.input) && peak() >= recv.pos.Index
 //@   ensures @C20 pc_ok(recv) && recv.posCacheIndex >= old(recv.posCacheIndex)
 //@   ensures @C20 recv.codeScanIndex >= old(recv.codeScanIndex) && recv.codeScanIndex <= recv.pos.Index
+// A line comment ends at the first newline after its opening "--": no newline lies in the part already passed.
+//@   loop 1 invariant @C04 commentStartIdx + 2 <= recv.pos.Index && recv.pos.Index <= len(recv.input)
+//@   loop 1 invariant @C04 forall(k, commentStartIdx + 2, recv.pos.Index, recv.input[k] != 10)
 // A block comment ends at the first "*/" after its opening "/*": while the loop runs, no "*/" lies in the part of the
 // comment already passed, and a '*' just passed is not followed by '/'.
 //@   loop 2 invariant @C04 commentStartIdx + 2 <= recv.pos.Index && recv.pos.Index <= len(recv.input)
